@@ -780,6 +780,96 @@ def _(T):
     return out
 
 
+@extractor("sky_estimate")
+def _(T):
+    """`estimate_sky` (priors.py): the guard that applies a separately passed mask, the slices gathered (in order), and whether
+    the gathering keeps masks (np.ma.concatenate(...).compressed()) or drops them (np.concatenate).  Any statement the matcher
+    does not know is a Miss: the behavioural tie then carries the function alone."""
+    tree, src = T["priors.py"]
+    fn = find_func(tree, "estimate_sky")
+    argn = [a.arg for a in fn.args.args]
+    if len(argn) < 3:
+        raise Miss("estimate_sky signature")
+    img, msk, npx = argn[0], argn[1], argn[2]
+    body = [st for st in fn.body if not (isinstance(st, ast.Expr) and isinstance(st.value, ast.Constant))]
+    if len(body) != 5 or not isinstance(body[0], ast.If) or not all(isinstance(b, ast.Assign) for b in body[1:4]) \
+            or not isinstance(body[4], ast.Return):
+        raise Miss("estimate_sky no longer has the shape guard / gather / median / scatter / return")
+    # --- guard
+    g = body[0]
+    if g.orelse or len(g.body) != 1 or not isinstance(g.body[0], ast.Assign):
+        raise Miss("mask guard body")
+    asg = g.body[0]
+    seg = ast.get_source_segment(src, asg.value) or ""
+    if not (isinstance(asg.targets[0], ast.Name) and asg.targets[0].id == img and isinstance(asg.value, ast.Call)
+            and seg.replace(" ", "") in (f"np.ma.masked_array({img},{msk})", f"np.ma.masked_array({img},mask={msk})",
+                                         f"np.ma.MaskedArray({img},{msk})", f"np.ma.array({img},mask={msk})")):
+        raise Miss("mask guard does not wrap the image with np.ma.masked_array(image, mask)")
+
+    def is_mask_given(e):
+        return (isinstance(e, ast.Compare) and isinstance(e.left, ast.Name) and e.left.id == msk and len(e.ops) == 1
+                and isinstance(e.ops[0], ast.IsNot) and isinstance(e.comparators[0], ast.Constant) and e.comparators[0].value is None)
+
+    def image_test(e):
+        """`not <f>(image)` → name of f"""
+        if isinstance(e, ast.UnaryOp) and isinstance(e.op, ast.Not) and isinstance(e.operand, ast.Call) and len(e.operand.args) >= 1 \
+                and isinstance(e.operand.args[0], ast.Name) and e.operand.args[0].id == img:
+            f = e.operand.func
+            if isinstance(f, ast.Attribute):
+                return f.attr
+            if isinstance(f, ast.Name):
+                if f.id == "isinstance":
+                    return "isMaskedArray" if "MaskedArray" in (ast.get_source_segment(src, e.operand.args[1]) or "") else None
+                return f.id
+        return None
+    t = g.test
+    if is_mask_given(t):
+        rule = "combine"
+    elif isinstance(t, ast.BoolOp) and isinstance(t.op, ast.And) and len(t.values) == 2 and any(is_mask_given(v) for v in t.values):
+        other = [v for v in t.values if not is_mask_given(v)]
+        f = image_test(other[0]) if other else None
+        rule = {"is_masked": "argIfImageUnmasked", "isMaskedArray": "argIfNotMaskedArray", "isMA": "argIfNotMaskedArray"}.get(f)
+        if rule is None:
+            raise Miss(f"mask guard tests the image with {f}")
+    else:
+        raise Miss("mask guard condition")
+    # --- gather
+    val = body[1].value
+    compressed = False
+    if isinstance(val, ast.Call) and isinstance(val.func, ast.Attribute) and val.func.attr == "compressed" and not val.args:
+        compressed = True
+        val = val.func.value
+    cseg = (ast.get_source_segment(src, val.func) or "") if isinstance(val, ast.Call) else ""
+    if cseg not in ("np.ma.concatenate", "np.concatenate") or len(val.args) != 1 or not isinstance(val.args[0], (ast.List, ast.Tuple)):
+        raise Miss("gather is not a concatenate of a list")
+    keeps = cseg == "np.ma.concatenate" and compressed
+
+    def bound(e):
+        if e is None:
+            return "none"
+        if isinstance(e, ast.Name) and e.id == npx:
+            return "pos"
+        if isinstance(e, ast.UnaryOp) and isinstance(e.op, ast.USub) and isinstance(e.operand, ast.Name) and e.operand.id == npx:
+            return "neg"
+        raise Miss("slice bound is not ±n_pix_sample")
+    slices = []
+    for el in val.args[0].elts:
+        if not (isinstance(el, ast.Call) and (ast.get_source_segment(src, el.func) or "") in ("np.ravel", "np.ma.ravel") and len(el.args) == 1):
+            raise Miss("gathered element is not np.ravel(image[…])")
+        sub = el.args[0]
+        if not (isinstance(sub, ast.Subscript) and isinstance(sub.value, ast.Name) and sub.value.id == img
+                and isinstance(sub.slice, ast.Tuple) and len(sub.slice.elts) == 2 and all(isinstance(x, ast.Slice) and x.step is None for x in sub.slice.elts)):
+            raise Miss("gathered element is not image[a:b, c:d]")
+        r, c = sub.slice.elts
+        slices.append([bound(r.lower), bound(r.upper), bound(c.lower), bound(c.upper)])
+    # --- statistics are taken of the gathered array, the count is its size
+    gname = body[1].targets[0].id if isinstance(body[1].targets[0], ast.Name) else None
+    for st in body[2:4]:
+        if not (isinstance(st.value, ast.Call) and len(st.value.args) == 1 and isinstance(st.value.args[0], ast.Name) and st.value.args[0].id == gname):
+            raise Miss("a statistic is not taken of the gathered array directly")
+    return dict(rule=rule, keeps=keeps, slices=slices)
+
+
 @extractor("map_filter")
 def _(T):
     """the if / elif / elif chain over site names in BaseFitter.find_MAP(purge_extra=True)"""
@@ -850,12 +940,20 @@ def emit(c):
     A("import PysersicModel.Scalar")
     A("import PysersicModel.IO.Validate")
     A("import PysersicModel.IO.Results")
+    A("import PysersicModel.IO.SkyEstimate")
     A("import PysersicModel.Prob.Loss")
     A("import PysersicModel.Render.Renderers")
     A("import PysersicModel.Prob.Prior")
     A("import PysersicModel.Prob.MultiBand")
     A("")
     A("namespace Pysersic.Gen")
+    A("")
+    se = c["sky_estimate"]
+    A("/-- `estimate_sky` (priors.py): how a separately passed mask meets a masked-array image; does the gathering keep masks; the slices gathered -/")
+    A(f"def skyMaskRule : SkyEstimate.MaskRule := .{se['rule']}")
+    A(f"def skyGatherKeepsMask : Bool := {'true' if se['keeps'] else 'false'}")
+    A("def skySlices : List (SkyEstimate.SB × SkyEstimate.SB × SkyEstimate.SB × SkyEstimate.SB) :=")
+    A("  " + lean_list(["(" + ", ".join("." + b for b in sl) + ")" for sl in se["slices"]]))
     A("")
     es = c["early_stop_defaults"]
     A("/-- defaults of `train_numpyro_svi_early_stop` (pysersic.py) -/")
